@@ -9,9 +9,12 @@ import (
 	"context"
 	"fmt"
 	"strings"
+	"sync"
+	"sync/atomic"
 	"time"
 
 	"github.com/gotd/td/bin"
+	"github.com/gotd/td/internal/verifhook"
 	"github.com/gotd/td/mt"
 	"github.com/gotd/td/mtproto"
 	"github.com/gotd/td/mtproto/salts"
@@ -46,6 +49,10 @@ type op struct {
 	// (observed with VerifSalt after it); "session" = the session() passed to OnSession by
 	// the preceding new_session_created.
 	Via string `json:"via,omitempty"`
+	// Race (Invoke only) forces the interleaving "another incoming message's updateSalt has read
+	// a future salt from the store but not yet stored it, while Invoke handles bad_server_salt"
+	// through the verifhook scheduling points.
+	Race bool `json:"race,omitempty"`
 }
 
 type obs [2]int64
@@ -272,6 +279,35 @@ func runConnOps(env *mtx.Env, cr connRun) (out []obs, fail string) {
 			done := make(chan struct{})
 			stop := make(chan struct{})
 			var sent []int64
+			// forced interleaving (o.Race): R1 = read path of an unrelated message, parked between
+			// salts.Get and storeSalt until Invoke has stored the server's new salt and reset the store
+			r1AtHook, release, r1Done := make(chan struct{}), make(chan struct{}), make(chan struct{})
+			var armed, hit atomic.Bool
+			var relOnce sync.Once
+			if o.Race {
+				verifhook.Set(func(point string, key int64) {
+					switch point {
+					case "mtproto.updateSalt.got":
+						if armed.CompareAndSwap(true, false) {
+							hit.Store(true)
+							close(r1AtHook)
+							select {
+							case <-release:
+							case <-time.After(500 * time.Millisecond): // repaired code: Invoke cannot get past us
+							}
+						}
+					case "mtproto.invoke.retry":
+						relOnce.Do(func() { close(release) })
+						if hit.Load() {
+							select {
+							case <-r1Done:
+							case <-time.After(500 * time.Millisecond):
+							}
+						}
+					}
+				})
+				defer verifhook.Set(nil)
+			}
 			go func() {
 				defer close(done)
 				for {
@@ -303,6 +339,19 @@ func runConnOps(env *mtx.Env, cr connRun) (out []obs, fail string) {
 					code, ns := int64(0), int64(0)
 					if i < len(script) {
 						code, ns = script[i][0], script[i][1]
+					}
+					if o.Race && i == 0 {
+						armed.Store(true)
+						go func() {
+							defer close(r1Done)
+							_ = env.Reply(mtx.RawBody{0xc3, 0xb2, 0xa1, 0x7f, 0, 0, 0, 0})
+						}()
+						select {
+						case <-r1AtHook:
+						case <-r1Done: // no future salt in the store: updateSalt returned before the hook
+						case <-time.After(time.Second):
+						}
+						armed.Store(false)
 					}
 					var body bin.Encoder
 					switch {
@@ -338,11 +387,26 @@ func runConnOps(env *mtx.Env, cr connRun) (out []obs, fail string) {
 	return out, ""
 }
 
-// oracleConn: the statement of C41 on the observed salts.
-func oracleConn(cr connRun, out []obs) (string, string) {
+// oracleConn: the statement of C41 on the observed salts. It returns every violation of the
+// case (sig, description); the known deviation `expired-future-salt-kept` does not stop the
+// judging of the rest of the history.
+func oracleConn(cr connRun, out []obs) (viol [][2]string) {
 	k := &known{mono: true}
 	held := cr.Init
+	heldFuture := false // the held salt was selected from the future-salt store
 	i := 0
+	add := func(sig, desc string) { viol = append(viol, [2]string{sig, desc}) }
+	attach := func(what string, date, s int64) {
+		switch sig, msg := judge(k, date, s, held, heldFuture); sig {
+		case "":
+		default:
+			add(sig, what+": "+msg)
+		}
+		if _, match := k.look(date, s); match {
+			heldFuture = true
+		}
+		held = s
+	}
 	for _, o := range cr.Ops {
 		switch o.Kind {
 		case kStore:
@@ -350,16 +414,12 @@ func oracleConn(cr connRun, out []obs) (string, string) {
 		case kReset:
 			k.reset()
 		case kTold:
-			held = o.Arg
+			held, heldFuture = o.Arg, false
 		case kHidden:
 		case kAttach:
 			s := out[i][1]
 			i++
-			date := (o.Arg + lookaheadNs) / 1e9
-			if msg := judge(k, date, s, held); msg != "" {
-				return "bad-salt-attached", fmt.Sprintf("attach at %d ns: %s", o.Arg, msg)
-			}
-			held = s
+			attach(fmt.Sprintf("attach at %d ns", o.Arg), (o.Arg+lookaheadNs)/1e9, s)
 		case kInvoke:
 			date := (o.Arg + lookaheadNs) / 1e9
 			var sends []int64
@@ -369,53 +429,56 @@ func oracleConn(cr connRun, out []obs) (string, string) {
 			ret := out[i][1]
 			i++
 			if len(sends) == 0 {
-				return "invoke-not-sent", "Invoke wrote no frame"
+				add("invoke-not-sent", "Invoke wrote no frame")
+				return
 			}
-			if msg := judge(k, date, sends[0], held); msg != "" {
-				return "bad-salt-attached", "Invoke, first send: " + msg
-			}
-			held = sends[0]
+			attach("Invoke, first send", date, sends[0])
 			first := o.Res[0]
 			if first[0] == 48 {
 				if len(sends) != 2 {
-					return "bad-salt-resend-count", fmt.Sprintf("request rejected with bad_server_salt was sent %d times in total (want exactly 2)", len(sends))
+					add("bad-salt-resend-count", fmt.Sprintf("request rejected with bad_server_salt was sent %d times in total (want exactly 2)", len(sends)))
+					return
 				}
 				if sends[1] != first[1] {
-					return "resend-with-wrong-salt", fmt.Sprintf("re-sent with salt %d, server told %d", sends[1], first[1])
+					add("resend-with-wrong-salt", fmt.Sprintf("re-sent with salt %d, server told %d", sends[1], first[1]))
 				}
-				held = first[1]
+				held, heldFuture = first[1], false
 				k.reset()
-				want := o.Res[1][0]
-				if ret != want {
-					return "second-result-not-returned", fmt.Sprintf("after the retry the peer answered code %d but Invoke returned %d", want, ret)
+				if want := o.Res[1][0]; ret != want {
+					add("second-result-not-returned", fmt.Sprintf("after the retry the peer answered code %d but Invoke returned %d", want, ret))
 				}
 			} else {
 				if len(sends) != 1 {
-					return "unexpected-resend", fmt.Sprintf("request sent %d times although the first answer was code %d", len(sends), first[0])
+					add("unexpected-resend", fmt.Sprintf("request sent %d times although the first answer was code %d", len(sends), first[0]))
+					return
 				}
 				if ret != first[0] {
-					return "result-not-returned", fmt.Sprintf("peer answered code %d but Invoke returned %d", first[0], ret)
+					add("result-not-returned", fmt.Sprintf("peer answered code %d but Invoke returned %d", first[0], ret))
 				}
 			}
 		}
 	}
-	return "", ""
+	return
 }
 
-// judge: s must be (A) an announced salt valid beyond date, or (B) the held salt while
-// no announced salt is valid beyond date.
-func judge(k *known, date int64, s, held int64) string {
+// judge: the attached salt s must be the last salt the server told (or the initial one), or
+// an announced salt valid beyond date (= now + lookahead). A future salt that is no longer
+// valid beyond date but is kept because nothing valid is known is the known deviation.
+func judge(k *known, date int64, s, held int64, heldFuture bool) (sig, msg string) {
 	valid, match := k.look(date, s)
 	if match {
-		return ""
+		return "", ""
 	}
 	if valid && !k.dup {
-		return fmt.Sprintf("salt %d attached although the server announced a salt valid beyond %d s (the attached one is not such a salt)", s, date)
+		return "bad-salt-attached", fmt.Sprintf("salt %d attached although the server announced a salt valid beyond %d s (the attached one is not such a salt)", s, date)
 	}
 	if s != held {
-		return fmt.Sprintf("salt %d attached: neither an announced salt valid beyond %d s nor the held salt %d", s, date, held)
+		return "bad-salt-attached", fmt.Sprintf("salt %d attached: neither an announced salt valid beyond %d s nor the held salt %d", s, date, held)
 	}
-	return ""
+	if heldFuture && !valid {
+		return "expired-future-salt-kept", fmt.Sprintf("future salt %d is attached although its validity does not reach beyond %d s (now + lookahead): no announced salt is valid that long and the previously selected one is kept", s, date)
+	}
+	return "", ""
 }
 
 // ---------- generators ----------
@@ -479,8 +542,8 @@ func main() {
 		}
 		sh, ix := c.Case(hx.Tuple(hx.Z(cr.Init), coqOps(cr.Ops), coqObs(out)), map[string]interface{}{"conn": cr, "observed": out})
 		c.Nontrivial(fmt.Sprint("conn", cr.Seed, len(cr.Ops)))
-		if sig, desc := oracleConn(cr, out); sig != "" {
-			c.Violate(sig, desc, sh, ix, map[string]interface{}{"conn": cr})
+		for _, v := range oracleConn(cr, out) {
+			c.Violate(v[0], v[1], sh, ix, map[string]interface{}{"conn": cr})
 		}
 	}
 
@@ -493,7 +556,9 @@ func main() {
 			out, fail := runConn(*rp.Conn)
 			sig, desc := "", ""
 			if fail == "" {
-				sig, desc = oracleConn(*rp.Conn, out)
+				if vs := oracleConn(*rp.Conn, out); len(vs) > 0 {
+					sig, desc = vs[0][0], vs[0][1]
+				}
 			}
 			fmt.Printf("replay: observed=%v fail=%q oracle=%q %s\n", out, fail, sig, desc)
 			connCase("replay", *rp.Conn)
@@ -588,6 +653,25 @@ func main() {
 			}
 			cr.Ops = append(cr.Ops, op{Kind: kInvoke, Arg: startNs + 1e9, Res: res}, op{Kind: kAttach, Arg: startNs + 2e9})
 			connCase(fmt.Sprintf("directed:bad-salt-x%d", k), cr)
+		}
+	}
+	// the known deviation: a selected future salt outlives its validity when nothing newer is announced
+	connCase("directed:expired-future-salt-kept", connRun{Init: 5, Seed: 77, Ops: []op{
+		{Kind: kAttach, Arg: startNs, Via: "store"}, {Kind: kStore, Salts: []fs{{int(startNs/1e9) + 1000, 11}}},
+		{Kind: kAttach, Arg: startNs + 100e9}, {Kind: kAttach, Arg: startNs + 900e9}, {Kind: kAttach, Arg: startNs + 1100e9}}})
+	// forced interleaving: a concurrent read-path updateSalt around the bad-salt handling
+	for k := 1; k <= 2; k++ {
+		for v := 0; v < c.N(2, 10); v++ {
+			cr := connRun{Init: 5, Seed: uint64(300 + 10*k + v)}
+			base := int(startNs/1e9) + 4000 + 100*v
+			cr.Ops = append(cr.Ops, op{Kind: kAttach, Arg: startNs, Via: "store"}, op{Kind: kStore, Salts: []fs{{base, 61}, {base + 4000, 62}}},
+				op{Kind: kAttach, Arg: startNs + 1e9})
+			res := [][2]int64{{48, int64(71 + v)}, {0, 0}}
+			if k == 2 {
+				res[1] = [2]int64{48, int64(81 + v)}
+			}
+			cr.Ops = append(cr.Ops, op{Kind: kInvoke, Arg: startNs + 2e9, Res: res, Race: true}, op{Kind: kAttach, Arg: startNs + 3e9})
+			connCase(fmt.Sprintf("directed:race-updateSalt-vs-bad-salt-x%d", k), cr)
 		}
 	}
 	c.Obs.Rule = "salts.Salts histories (Store of 0..5 salts with overlapping/duplicated/expired validity from pools of 3/8/12 salt values, Get at deadlines around each valid_until +-1 s incl. backwards, Reset); non-trivial = distinct history with both a returned and a refused Get. Conn histories: future_salts, new_session_created, Reset, attach (salt field of a written frame) and Invoke with a scripted peer (first answer ok / bad_server_salt / other bad-msg code / rpc error, second likewise) at advancing fake-clock readings; each distinct run counts"
